@@ -36,7 +36,8 @@ Signatures (every violation is minimised by dropping deviations first):
   c:<shape>:raises-instead-of-returning     c:disagree:<shape>:<verdict|messages|normalized|warnings|exit-code|first-line>
   c:cli:<form>:<traceback|exit-code|first-line|messages|warnings|normalized|stdout-not-json>
   d:range:<key path or cross-field constraint>:<nan|out-of-range>
-  e:engine-raises:<default | key path(s) | nonstr-key@<level> | unknown-key@<level> | <level>.*>
+  e:engine-raises:<default | key path(s) | nonstr-key@<level> (alone or mixed with string keys of that level)
+                   | unknown-key@<level> | <level>.*>
 """
 from __future__ import annotations
 
@@ -232,17 +233,24 @@ def dev_class(d) -> str:
 def devs_class(devs, levels: bool = False) -> str:
     """signature component of a set of deviations.  With levels=True (clause e) a special key carries the dict
     level it was added at, near-miss keys count as unknown keys, and a set-deviation that is a sibling of a
-    special key is abbreviated to '<level>.*' (the defect then is about the mix of keys, not about that leaf)"""
+    special key is abbreviated to '<level>.*' (the defect then is about the mix of keys, not about that leaf);
+    next to a NON-STRING key at the same level, sibling deviations are dropped from the signature altogether"""
     if not devs:
         return "default"
     if not levels:
         return "+".join(sorted(set(dev_class(d) for d in devs)))
     key_levels = set(tuple(d["at"]) for d in devs if d["op"] == "key")
+    nonstr_levels = set(tuple(d["at"]) for d in devs if d["op"] == "key" and KEY_CLASS[d["k"]] == "nonstr-key")
     out = set()
     for d in devs:
         if d["op"] == "key":
-            cls = "nonstr-key" if KEY_CLASS[d["k"]] == "nonstr-key" else "unknown-key"
-            out.add("%s@%s" % (cls, ".".join(d["at"]) or "<root>"))
+            lvl = tuple(d["at"])
+            if KEY_CLASS[d["k"]] == "nonstr-key":
+                out.add("nonstr-key@%s" % (".".join(lvl) or "<root>"))
+            elif lvl not in nonstr_levels:  # a string key next to a non-string key: the mix is the input class
+                out.add("unknown-key@%s" % (".".join(lvl) or "<root>"))
+        elif d["op"] == "set" and tuple(d["path"][:-1]) in nonstr_levels:
+            continue
         elif d["op"] == "set" and tuple(d["path"][:-1]) in key_levels:
             out.add("%s.*" % (".".join(d["path"][:-1]) or "<root>"))
         else:
